@@ -426,6 +426,7 @@ def judge(case):
     if case.get("decoy"):
         _decoys.ribosome(case["decoy"], Ribosome, mRNA, sorted(templates) + ["main", "prompt"], strict_mode=case["strict"])
         out.label("decoy")
+        _decoys.note(out)
     main_mode = case.get("main_mode", "object")
 
     def main_template():
